@@ -203,8 +203,10 @@ func maxStepsFor(p *Plan) int {
 func TestWorker(t *testing.T) {
 	switch *fMode {
 	case "gen":
-		p := Generate(*fProp, *fTier, *fSeed, *fFrom)
-		fmt.Println(string(p.JSON()))
+		for i := *fFrom; i == *fFrom || i < *fTo; i += *fStride {
+			b, _ := json.Marshal(Generate(*fProp, *fTier, *fSeed, i))
+			fmt.Println(string(b))
+		}
 	case "run":
 		p, err := LoadPlan(*fPlan)
 		if err != nil {
